@@ -28,7 +28,9 @@ FAULTS = {
                    'li x1, 1 << ', 'andi x8, x8, ~', 'X9 = 1 ===', 'db 0.5', 'li x1, "s"', 'addi x1, x1, [1]',
                    # truncated / over-long modifier expressions (parse_immediate unpacks tuples: D21)
                    'addi x1, x1, %hi(', 'addi x1, x1, %lo', 'lui x1, %hi', 'li x1, %position(', 'li x1, %position(start',
-                   'dw %offset(', 'addi x1, x1, %offset start start', 'dw %position', 'X9 = %lo(', 'lw x8, %lo((x9)'],
+                   'dw %offset(', 'addi x1, x1, %offset start start', 'dw %position', 'X9 = %lo(', 'lw x8, %lo((x9)',
+                   # malformed escapes in character literals (D24)
+                   "addi x1, x1, '\\x'", "X9 = '\\'", "li x1, '\\u12'", "dw '\\N{nope}'"],
     'range-align': ['align 0'],
     'error-directive': ['error stop here', 'error unsupported configuration: 42'],
 }
@@ -59,7 +61,7 @@ def neutral(cls, fault):
         head = fault.split()[0]
         return {'db': 'db 0', 'dh': 'dh 0', 'dw': 'dw 0', 'dd': 'dd 0', 'bytes': 'bytes 1 2 3', 'shorts': 'shorts 1',
                 'ints': 'ints 1', 'pack': 'pack <' + fault.split()[1][-1] + ' 0'}.get(head, 'dw 0')
-    if cls in ('error-directive', 'duplicate-label', 'missing-include', 'range-align'):
+    if cls in ('error-directive', 'duplicate-label', 'missing-include', 'include-directory', 'range-align'):
         return ''
     if fault.split()[0] in ('li', 'call', 'tail') or fault.startswith('X9'):
         return 'lui x1, 74565\naddi x1, x1, 1656'.replace('\n', ' # ') if False else ('X9 = 1' if fault.startswith('X9') else 'li x1, 0x12345678')
@@ -112,7 +114,7 @@ def explore(ctx):
     asm = harness.real_asm()
     rng = ctx.rng
     ctx.rule = ('one faulty line of each class (operand out of range incl. data and align 0, unknown register, undefined label / constant, '
-                'malformed or non-integer expression, error directive, duplicate label, missing include) planted at every '
+                'malformed or non-integer expression, error directive, duplicate label, missing include incl. a directory of that name) planted at every '
                 'position of small valid programs, top level and include depth 1-3, compression off and on; non-trivial = '
                 'distinct (class, fault line, mode, include depth) reported at the right place')
     nprog = 6 if ctx.quick() else 60
@@ -161,11 +163,17 @@ def explore(ctx):
     try:
         for k in range(2 if ctx.quick() else 12):
             for depth in (1, 2, 3):
-                for cls in list(FAULTS) + ['missing-include']:
+                for cls in list(FAULTS) + ['missing-include', 'include-directory']:
                     d = os.path.join(tmp, 'p{}_{}_{}'.format(k, depth, cls))
                     os.makedirs(d)
                     names = ['main.asm'] + ['inc{}.asm'.format(i) for i in range(1, depth + 1)]
-                    fault = 'include nofile_{}.asm'.format(k) if cls == 'missing-include' else FAULTS[cls][(k + depth) % len(FAULTS[cls])]
+                    if cls == 'missing-include':
+                        fault = 'include nofile_{}.asm'.format(k)
+                    elif cls == 'include-directory':       # a directory of that name exists: cannot be included either (D25)
+                        os.makedirs(os.path.join(d, 'adir_{}'.format(k)))
+                        fault = ('include adir_{}' if (k + depth) % 2 else 'include_bytes adir_{}').format(k)
+                    else:
+                        fault = FAULTS[cls][(k + depth) % len(FAULTS[cls])]
                     for i, n in enumerate(names):
                         body = ['l{}_{}:'.format(i, k), 'addi x8, x8, {}'.format(i + 1), 'nop']
                         if i + 1 < len(names):
